@@ -354,10 +354,17 @@ class Node:
                 return default is None
 
             if value_node.tag == 'tag:yaml.org,2002:int':
-                return int(value_node.value) == int(default)
+                try:
+                    return bool(Node(value_node).get_value() == int(default))
+                except (TypeError, ValueError):
+                    return False
 
             if value_node.tag == 'tag:yaml.org,2002:float':
-                return float(value_node.value) == float(default)
+                try:
+                    return bool(
+                            Node(value_node).get_value() == float(default))
+                except (TypeError, ValueError):
+                    return False
 
             if value_node.tag == 'tag:yaml.org,2002:bool':
                 if default is False:
